@@ -137,6 +137,9 @@ func main() {
 			case "ambient", "funcv": // ext_c04tie.go (value-passing target)
 				text, err = genExtC04(p, e)
 				monadic[e.module] = true
+			case "funce": // wp kfinish (ext_kfinish.go): counted-loop function whose calls are fields of an environment structure
+				text, err = kfinishGenFuncE(p, e)
+				monadic[e.module] = true
 			default:
 				err = fmt.Errorf("unknown kind %s", e.kind)
 			}
